@@ -419,7 +419,12 @@ CloseReturns == (done = 1) ~> (\A p \in Procs : pc[p] = "idle")
 \* schedule generation: one witness schedule per transition (state, step, state') of the graph:
 \* two steps that lead to the same state from different states are different transitions
 Last == IF hist = <<>> THEN "" ELSE hist[Len(hist)]
-CoverView == <<core, prev, Last>>
+\* cover of pairs of consecutive steps: a witness for every (state, step, state') triple AND for every step that can
+\* follow it.  One step alone is not enough: the model has one control point where the code has a loop (the test of
+\* waitForWriteSpace before the first wait and after a wake-up is the same pc), so a change to the code's loop structure
+\* shows only in what the process does after a particular predecessor step.
+Last2 == IF Len(hist) < 2 THEN hist ELSE SubSeq(hist, Len(hist) - 1, Len(hist))
+CoverView == <<core, prev, Last2>>
 Post == [pseq |-> pseq, cseq |-> cseq, pmu |-> pmu, cmu |-> cmu, done |-> done,
          pret |-> loc["P"].ret, cret |-> loc["C"].ret, fin |-> Finished]
 Emit == hist = <<>> \/ PrintT(ToJson([h |-> hist, post |-> Post]))
